@@ -4,51 +4,50 @@ From Falcon.C07 Require Import Model Spec ProofsLib ProofsA ProofsA2.
 Import ListNotations.
 Open Scope Z_scope.
 
-Lemma exhaust_ok D dl live noex st r st' :
-  AInv D dl live noex st -> a_exhaust st = (r, st') ->
-  AInv D (dl ++ ares_bytes r) false false st' /\
+Lemma exhaust_ok D dl st r st' :
+  AInv D dl st -> a_exhaust true st = (r, st') ->
+  AInv D (consumed_after D dl AExhaust r) st' /\
   a_shape_ok (a_observe AExhaust (r, st')) = true /\ gen st' = gen st.
 Proof.
   intros I H. unfold a_exhaust in H. destruct (closed st) eqn:C.
-  - injection H as <- <-. destruct (ai_closed _ _ _ _ _ I C) as [B R].
-    split; [|split; [cbn; exact C | reflexivity]].
-    cbn [ares_bytes]. rewrite app_nil_r. destruct I as [I1 I2 I3 I4 I5 I6 I7 I8 I9 I10].
-    constructor; try assumption; try discriminate. intros _. split; assumption.
-  - destruct (exhaust_loop (evs (nt st)) (nt st) (rem st) (pos st)) as [[g r1] p] eqn:L.
+  - injection H as <- <-. split; [|split; [cbn; exact C | reflexivity]].
+    cbn [consumed_after ares_bytes]. apply (AInv_same _ _ st st I); auto.
+  - destruct (exhaust_loop true (evs (nt st)) (nt st) (rem st) (pos st + len (buf st)))
+      as [[g r1] p] eqn:L.
     injection H as <- <-.
-    destruct (exhaust_loop_spec _ _ _ _ _ _ _ eq_refl (ai_net _ _ _ _ _ I) L) as (S1 & S2 & S3).
+    destruct (exhaust_loop_spec _ _ _ _ _ _ _ eq_refl (ai_net _ _ _ I) (ai_rem _ _ _ I) L)
+      as (S1 & S2 & S3 & S4).
     split; [|split; reflexivity].
-    cbn [ares_bytes]. rewrite app_nil_r. unfold set_core.
-    constructor; cbn [buf rem pos closed gen nt]; try discriminate; try lia.
-    + exact (ai_pre _ _ _ _ _ I).
-    + intros _. split; reflexivity.
-    + pose proof (ai_tell_le _ _ _ _ _ I). lia.
+    cbn [consumed_after]. unfold set_core.
+    pose proof (ai_open _ _ _ I C) as DL.
+    constructor; cbn [buf rem pos closed gen nt].
+    + lia.
+    + exists []. rewrite app_nil_r. reflexivity.
+    + intros _. rewrite (takeZ_nonpos 0), !app_nil_r by lia. reflexivity.
+    + rewrite S3, (ai_tell _ _ _ I). rewrite (f_equal len DL), !len_app. lia.
     + exact (NInv_zero _ _ S1).
     + reflexivity.
-    + intro G. apply S3. exact (ai_pend _ _ _ _ _ I G).
+    + intro G. apply S4. exact (ai_pend _ _ _ I G).
     + intros _. split; reflexivity.
 Qed.
 
-Lemma close_ok D dl live noex st :
-  AInv D dl live noex st -> AInv D (dl ++ []) false noex (a_close st).
+Lemma close_ok D dl st : AInv D dl st -> AInv D (dl ++ []) (a_close st).
 Proof.
-  intros I. rewrite app_nil_r. unfold a_close. destruct (closed st) eqn:C.
-  - destruct (ai_closed _ _ _ _ _ I C) as [B R]. destruct I as [I1 I2 I3 I4 I5 I6 I7 I8 I9 I10].
-    constructor; try assumption; try discriminate. intros _. split; assumption.
-  - destruct I as [I1 I2 I3 I4 I5 I6 I7 I8 I9 I10].
+  intros I. unfold a_close. destruct (closed st) eqn:C.
+  - apply (AInv_same _ _ st st I); auto.
+  - rewrite app_nil_r. destruct I as [I1 I2 I3 I5 I7 I8 I9 I10].
     constructor; cbn [buf rem pos closed gen nt]; try assumption; try discriminate; try lia.
-    + intros _. split; reflexivity.
     + exact (NInv_zero _ _ I7).
     + reflexivity.
     + intros _. split; reflexivity.
 Qed.
 
-Lemma astep_ok D dl live noex op st r st' :
-  AInv D dl live noex st -> gsusp (gen st) && sized_read op = false ->
-  astep true op st = (r, st') -> AStepOK D dl live noex op st r st'.
+Lemma astep_ok D dl op st r st' :
+  AInv D dl st -> gsusp (gen st) && sized_read op = false ->
+  astep true op st = (r, st') -> AStepOK D dl op st r st'.
 Proof.
   intros I DS H. unfold AStepOK. destruct op as [sz| | | | | | | |]; cbn [astep] in H.
-  - destruct (read_ok _ _ _ _ _ _ _ _ I DS H) as (R1 & R2 & R3 & R4 & R5).
+  - destruct (read_ok _ _ _ _ _ _ I DS H) as (R1 & R2 & R3 & R4 & R5).
     split; [exact R1|]. split; [exact R2|]. split; [exact R3|]. split.
     + unfold a_shape_ok, a_observe. cbn [ao_op ao_res ao_closed fst snd].
       destruct R4 as [[b ->] | [-> C]]; [reflexivity | exact C].
@@ -57,26 +56,26 @@ Proof.
     { unfold a_readall in H. destruct (closed st); [injection H as <- <-; reflexivity|].
       destruct (a_eof st); [injection H as <- <-; reflexivity|].
       destruct (readall_loop _ _ _ _) as [[? ?] ?]. injection H as <- <-. reflexivity. }
-    destruct (readall_ok _ _ _ _ _ _ _ I H) as [(A1 & A2 & [b ->]) | (-> & A2 & A3 & A4)].
+    destruct (readall_ok _ _ _ _ _ I H) as [(A1 & A2 & [b ->]) | (-> & A2 & A3 & A4)].
     + split; [exact A1|]. split; [reflexivity|]. split; [intros _; exact A2|].
       split; [reflexivity | rewrite GE; reflexivity].
     + split; [exact A4|]. split; [reflexivity|]. split; [discriminate|].
       split; [cbn; exact A2 | rewrite GE; reflexivity].
-  - destruct (next_ok _ _ _ _ _ _ _ I H) as (N1 & N2 & N3).
+  - destruct (next_ok _ _ _ _ _ I H) as (N1 & N2 & N3).
     split; [exact N1|]. split; [reflexivity|]. split; [discriminate|]. split; assumption.
-  - injection H as <- <-. split; [apply (AInv_same _ _ _ _ st _ I); try reflexivity; discriminate|].
+  - injection H as <- <-. split; [apply (AInv_same _ _ st _ I); try reflexivity; discriminate|].
     repeat split; discriminate || reflexivity.
-  - destruct (exhaust_ok _ _ _ _ _ _ _ I H) as (E1 & E2 & E3).
+  - destruct (exhaust_ok _ _ _ _ _ I H) as (E1 & E2 & E3).
     split; [exact E1|]. split; [reflexivity|]. split; [discriminate|].
     split; [exact E2 | rewrite E3; reflexivity].
-  - injection H as <- <-. split; [exact (close_ok _ _ _ _ _ I)|].
+  - injection H as <- <-. split; [exact (close_ok _ _ _ I)|].
     split; [reflexivity|]. split; [discriminate|]. split; [reflexivity|].
     unfold a_close. destruct (closed st); reflexivity.
-  - injection H as <- <-. split; [apply (AInv_same _ _ _ _ st st I); auto|].
+  - injection H as <- <-. split; [apply (AInv_same _ _ st st I); auto|].
     split; [reflexivity|]. split; [discriminate|]. split; [cbn; apply Z.eqb_refl | reflexivity].
-  - injection H as <- <-. split; [apply (AInv_same _ _ _ _ st st I); auto|].
+  - injection H as <- <-. split; [apply (AInv_same _ _ st st I); auto|].
     split; [reflexivity|]. split; [discriminate|]. split; [cbn; apply eqb_reflx | reflexivity].
-  - injection H as <- <-. split; [apply (AInv_same _ _ _ _ st st I); auto|].
+  - injection H as <- <-. split; [apply (AInv_same _ _ st st I); auto|].
     split; [reflexivity|]. split; [discriminate|]. split; [cbn; apply eqb_reflx | reflexivity].
 Qed.
 
@@ -86,58 +85,119 @@ Proof.
   apply slice_ok_at. rewrite !len_app. pose proof (len_nonneg r). lia.
 Qed.
 
-Lemma a_check_ok D dl live noex op st r st' :
-  AStepOK D dl live noex op st r st' ->
-  a_check D (len dl) live (a_noex_after noex op) (a_observe op (r, st')) = [].
+Lemma cursor_consumed D dl op r :
+  (exists rest, D = dl ++ rest) ->
+  cursor_after D (len dl) op r = len (consumed_after D dl op r).
 Proof.
-  intros (I & SZ & EM & SH & _). unfold a_check.
+  intros _. unfold cursor_after, consumed_after.
+  destruct op; try (rewrite len_app; reflexivity).
+  destruct r; try (rewrite len_app; reflexivity). reflexivity.
+Qed.
+
+(* the bytes an operation returned sit at the cursor *)
+Lemma step_slice D dl op st r st' :
+  AInv D dl st -> AStepOK D dl op st r st' -> slice_ok D (len dl) (ares_bytes r) = true.
+Proof.
+  intros I (I' & _). destruct (ai_pre _ _ _ I) as [rest0 PR0].
+  assert (NB : forall rest, D = (dl ++ ares_bytes r) ++ rest -> slice_ok D (len dl) (ares_bytes r) = true).
+  { intros rest PR. rewrite PR, <- app_assoc. apply slice_ok_app. }
+  destruct (ai_pre _ _ _ I') as [rest PR]. unfold consumed_after in PR.
+  destruct op; try exact (NB _ PR).
+  destruct r; try exact (NB _ PR).
+  cbn [ares_bytes]. rewrite PR0. replace rest0 with ([] ++ rest0) by reflexivity. apply slice_ok_app.
+Qed.
+
+(* once eof is reported no operation returns bytes, and eof stays reported *)
+Lemma iter_loop_zero ev g p : iter_loop ev g 0 p = (None, g, 0, p).
+Proof. destruct ev; reflexivity. Qed.
+
+Lemma exhaust_loop_zero f ev g p : exhaust_loop f ev g 0 p = (g, 0, p).
+Proof. destruct ev; reflexivity. Qed.
+
+Lemma eof_no_bytes op st r st' :
+  a_eof st = true -> astep true op st = (r, st') -> ares_bytes r = [] /\ a_eof st' = true.
+Proof.
+  intros E H. destruct (eof_inv _ E) as [B R].
+  destruct op as [sz| | | | | | | |]; cbn [astep] in H.
+  - unfold a_read in H. destruct (closed st); [injection H as <- <-; split; [reflexivity | exact E]|].
+    rewrite E in H. injection H as <- <-. split; [reflexivity | exact E].
+  - unfold a_readall in H. destruct (closed st); [injection H as <- <-; split; [reflexivity | exact E]|].
+    rewrite E in H. injection H as <- <-. split; [reflexivity | exact E].
+  - unfold a_next in H.
+    assert (RS : forall r0, r0 = 0 -> a_resume_loop st r0 = (r, st') -> ares_bytes r = [] /\ a_eof st' = true).
+    { intros r0 -> HH. unfold a_resume_loop in HH. rewrite iter_loop_zero in HH.
+      injection HH as <- <-. split; [reflexivity|]. unfold a_eof. cbn [buf rem]. rewrite B. reflexivity. }
+    destruct (gen st) eqn:G.
+    + destruct (closed st); [injection H as <- <-; split; [reflexivity | exact E]|].
+      rewrite E in H. injection H as <- <-. split; [reflexivity | exact E].
+    + destruct (closed st); [injection H as <- <-; split; [reflexivity | exact E]|].
+      rewrite E in H. injection H as <- <-. split; [reflexivity | exact E].
+    + apply (RS (rem st) R H).
+    + apply (RS (if more then rem st else 0)); [destruct more; [exact R | reflexivity] | exact H].
+    + injection H as <- <-. split; [reflexivity | exact E].
+  - injection H as <- <-. split; [reflexivity | exact E].
+  - unfold a_exhaust in H. destruct (closed st); [injection H as <- <-; split; [reflexivity | exact E]|].
+    rewrite R, exhaust_loop_zero in H. injection H as <- <-. split; reflexivity.
+  - injection H as <- <-. split; [reflexivity|]. unfold a_close.
+    destruct (closed st); [exact E | reflexivity].
+  - injection H as <- <-. split; [reflexivity | exact E].
+  - injection H as <- <-. split; [reflexivity | exact E].
+  - injection H as <- <-. split; [reflexivity | exact E].
+Qed.
+
+Lemma a_check_ok D dl op st r st' :
+  AInv D dl st -> astep true op st = (r, st') -> AStepOK D dl op st r st' ->
+  a_check D (len dl) (a_eof st) (a_observe op (r, st')) = [].
+Proof.
+  intros I0 HS SO. pose proof (step_slice _ _ _ _ _ _ I0 SO) as SL.
+  destruct SO as (I & SZ & EM & SH & _). unfold a_check.
   set (o := a_observe op (r, st')) in *.
   change (ao_res o) with r. change (ao_op o) with op. change (ao_tell o) with (pos st').
   change (ao_eof o) with (a_eof st'). change (ao_late o) with (late (nt st')).
-  change (ao_over o) with (over (nt st')).
-  destruct (ai_pre _ _ _ _ _ I) as [rest PR].
-  assert (SL : slice_ok D (len dl) (ares_bytes r) = true).
-  { rewrite PR, <- app_assoc. apply slice_ok_app. }
-  rewrite SL, SZ. destruct (ai_net _ _ _ _ _ I) as (_ & LT & OV & _).
+  change (ao_over o) with (over (nt st')). change (ao_closed o) with (closed st').
+  rewrite SL, SZ. destruct (ai_net _ _ _ I) as (_ & LT & OV & _).
   rewrite LT, OV, SH. cbn [Z.eqb app].
-  assert (T : (if a_noex_after noex op then pos st' =? len dl + len (ares_bytes r)
-               else len dl + len (ares_bytes r) <=? pos st') = true).
-  { destruct (a_noex_after noex op) eqn:NX.
-    - apply Z.eqb_eq. rewrite (ai_tell _ _ _ _ _ I eq_refl), len_app. reflexivity.
-    - apply Z.leb_le. pose proof (ai_tell_le _ _ _ _ _ I) as TL. rewrite len_app in TL. exact TL. }
-  rewrite T. cbn [app].
-  assert (E5 : a_live_after live op && a_eof st' && negb (len dl + len (ares_bytes r) =? len D) = false).
-  { destruct (a_live_after live op) eqn:LV; [|reflexivity].
-    destruct (a_eof st') eqn:E; [|reflexivity]. cbn [andb].
-    destruct (eof_inv _ E) as [B R]. pose proof (ai_live _ _ _ _ _ I eq_refl) as DL.
+  rewrite (cursor_consumed D dl op r (ai_pre _ _ _ I0)).
+  rewrite (ai_tell _ _ _ I), Z.eqb_refl. cbn [app].
+  assert (E5 : a_eof st' && negb (closed st')
+               && negb (len (consumed_after D dl op r) =? len D) = false).
+  { destruct (a_eof st') eqn:E; [|reflexivity].
+    destruct (closed st') eqn:C; [reflexivity|]. cbn [andb negb].
+    destruct (eof_inv _ E) as [B R]. pose proof (ai_open _ _ _ I C) as DL.
     rewrite B, R, (takeZ_nonpos 0), !app_nil_r in DL by lia.
-    rewrite DL, len_app, Z.eqb_refl. reflexivity. }
+    rewrite <- DL, Z.eqb_refl. reflexivity. }
   rewrite E5. cbn [app].
+  assert (E9 : a_eof st && nonempty (ares_bytes r) = false).
+  { destruct (a_eof st) eqn:E; [|reflexivity]. cbn [andb].
+    rewrite (proj1 (eof_no_bytes _ _ _ _ E HS)). reflexivity. }
+  rewrite E9. cbn [app].
   destruct (a_asks_for_data op) eqn:A; [|reflexivity].
   destruct r as [b| | | | |]; cbn [ares_bytes nonempty negb andb]; try (destruct (a_eof st'); reflexivity).
   destruct b; cbn [nonempty negb andb]; [|reflexivity].
   rewrite (EM eq_refl eq_refl). reflexivity.
 Qed.
 
-Lemma a_oracle_from_ok D : forall ops dl live noex st,
-  AInv D dl live noex st ->
-  a_oracle_from D (len dl) live noex (gsusp (gen st)) (a_observes ops (arun true ops st)) = [].
+Lemma a_oracle_from_ok D : forall ops dl st,
+  AInv D dl st ->
+  a_oracle_from D (len dl) (a_eof st) (gsusp (gen st)) (a_observes ops (arun true ops st)) = [].
 Proof.
-  induction ops as [|op ops IH]; intros dl live noex st I; [reflexivity|].
+  induction ops as [|op ops IH]; intros dl st I; [reflexivity|].
   cbn [arun]. destruct (astep true op st) as [r st1] eqn:S.
   cbn [a_observes a_oracle_from].
   change (ao_op (a_observe op (r, st1))) with op.
   destruct (gsusp (gen st) && sized_read op) eqn:DS; [reflexivity|].
-  pose proof (astep_ok _ _ _ _ _ _ _ _ I DS S) as SO.
-  rewrite (a_check_ok _ _ _ _ _ _ _ _ SO). cbn [app].
+  pose proof (astep_ok _ _ _ _ _ _ I DS S) as SO.
+  rewrite (a_check_ok _ _ _ _ _ _ I S SO). cbn [app].
   change (ao_res (a_observe op (r, st1))) with r.
-  destruct SO as (I1 & _ & _ & _ & G). rewrite <- G, <- len_app. apply IH. exact I1.
+  change (ao_eof (a_observe op (r, st1))) with (a_eof st1).
+  destruct SO as (I1 & _ & _ & _ & G). rewrite <- G.
+  rewrite (cursor_consumed D dl op r (ai_pre _ _ _ I)). apply IH. exact I1.
 Qed.
 
 (* ---- the constructor establishes the invariant *)
 Lemma AInv_init first cl events :
   wfb (first_events first ++ events) = true -> (forall n, cl = Some n -> 0 <= n) ->
-  AInv (a_declared first cl events) [] true true (a_init true first cl events) /\
+  AInv (a_declared first cl events) [] (a_init true first cl events) /\
   pos (a_init true first cl events) = 0 /\ gen (a_init true first cl events) = GNone.
 Proof.
   intros W CL. split; [|split; reflexivity].
@@ -184,9 +244,7 @@ Proof.
       * reflexivity.
       * rewrite (sbody_all_disc _ AD). reflexivity.
       * reflexivity.
-  - discriminate.
   - reflexivity.
-  - change (len (@nil N)) with 0. lia.
   - (* NInv *)
     unfold NInv. cbn [disc late over rcvd climit evs].
     split; [discriminate|]. split; [reflexivity|]. split; [reflexivity|]. split; [|exact WE].
@@ -204,10 +262,10 @@ Qed.
 Theorem a_oracle_sound first cl events ops :
   wfb (first_events first ++ events) = true -> (forall n, cl = Some n -> 0 <= n) ->
   let st0 := a_init true first cl events in
-  a_oracle first cl events (pos st0) (a_observes ops (arun true ops st0)) = [].
+  a_oracle first cl events (pos st0) (a_eof st0) (a_observes ops (arun true ops st0)) = [].
 Proof.
   intros W CL st0. destruct (AInv_init first cl events W CL) as (I & P & G).
   unfold a_oracle. fold st0 in I, P, G. rewrite P. cbn [Z.eqb app].
-  pose proof (a_oracle_from_ok _ ops [] true true st0 I) as H.
+  pose proof (a_oracle_from_ok _ ops [] st0 I) as H.
   rewrite G in H. exact H.
 Qed.
